@@ -120,7 +120,115 @@ theorem xz_roundtrip_tail (src tail : List UInt8) (h1 : src.length < 2 ^ 63) (h2
     decodeXz #[] ((encodeXz #[] src).toList ++ tail) = (pushList #[] src, tail, Err.ok) := by
   rw [encodeXz_toList]
   simp only [List.append_assoc, List.cons_append, List.nil_append]
-  trace_state
-  sorry
+  have hx : xzHeader24.length = 24 := rfl
+  -- name the pieces, from the back
+  generalize hF : le32 (crc32 (xzTail6 src)) ++ (xzTail6 src ++ 89 :: 90 :: tail) = F
+  generalize hR5 : le32 (crc32 (xzIdxP src)) ++ F = R5
+  generalize hR4 : xzIdxP src ++ R5 = R4
+  generalize hR3 : le32 (crc32 src) ++ R4 = R3
+  generalize hR2 : padList ((chunksBytes src).length + 13) ++ R3 = R2
+  generalize hR1 : chunksBytes src ++ 0 :: R2 = R1
+  have hR1len : R1.length = (chunksBytes src).length + 1 + R2.length := by
+    rw [← hR1]; simp; omega
+  have s1 : ¬ ((xzHeader24 ++ R1).length < 24 ∨ (xzHeader24 ++ R1).take 6 ≠ xzHeader24.take 6) := by
+    intro h
+    rcases h with h | h
+    · rw [List.length_append, hx] at h; omega
+    · exact h (List.take_append_of_le_length (by rw [hx]; omega))
+  have s2 : ¬ (((xzHeader24 ++ R1).take 24).drop 6 ≠ xzHeader24.drop 6) := by
+    rw [List.take_left' hx]; simp
+  have s3 : (xzHeader24 ++ R1).drop 24 = R1 := List.drop_left' hx
+  have s4 : decodeXzChunks ((xzHeader24 ++ R1).length + 1) #[] R1 = ChunkResult.brk (pushList #[] src) R2 := by
+    rw [← hR1]
+    exact decode_chunks _ src _ _ _ rfl (by simp; omega)
+  have s5 : (xzHeader24 ++ R1).length - 12 - R2.length + 4 = xzUnpadded src := by
+    rw [List.length_append, hx, hR1len]; unfold xzUnpadded; omega
+  have s6 : skipPad 3 (xzUnpadded src &&& 3) R2 = (true, R3) := by
+    rw [← hR2]
+    exact skipPad_padList _ _ _ (by unfold xzUnpadded; omega)
+  have s7 : hasLe32 R3 (crc32Arr (pushList #[] src) 0) = true := by
+    rw [← hR3, crc32Arr_pushList]; exact hasLe32_ok _ _
+  have s8 : R3.drop 4 = R4 := by
+    rw [← hR3]; exact List.drop_left' (le32_length _)
+  have s9 : R4 = 0 :: 1 :: (uvList (xzUnpadded src) ++ (uvList src.length ++
+      (padList (xzIdx src).length ++ R5))) := by
+    rw [← hR4]; unfold xzIdxP xzIdx
+    simp only [List.append_assoc, List.cons_append]
+  have s10 := uvarint_roundtrip_list (xzUnpadded src) h2 (uvList src.length ++ (padList (xzIdx src).length ++ R5))
+  have s11 := uvarint_roundtrip_list src.length h1 (padList (xzIdx src).length ++ R5)
+  have s12 : (pushList #[] src).size = src.length := by rw [pushList_size]; simp
+  have hR4len : R4.length = (xzIdx src).length + (padList (xzIdx src).length).length + R5.length := by
+    rw [← hR4]; unfold xzIdxP; simp only [List.length_append]
+  have s13 : skipPad 3 ((R4.length - (padList (xzIdx src).length ++ R5).length) &&& 3)
+      (padList (xzIdx src).length ++ R5) = (true, R5) := by
+    apply skipPad_padList
+    rw [hR4len, List.length_append]; omega
+  have s14 : R4.length - R5.length = (xzIdxP src).length := by
+    rw [← hR4, List.length_append]; omega
+  have s15 : R4.take (xzIdxP src).length = xzIdxP src := by
+    rw [← hR4]; exact List.take_left
+  have s16 : hasLe32 R5 (crc32 (xzIdxP src)) = true := by
+    rw [← hR5]; exact hasLe32_ok _ _
+  have s17 : R5.drop 4 = F := by
+    rw [← hR5]; exact List.drop_left' (le32_length _)
+  have s18 : ¬ (F.length < 12) := by rw [← hF]; simp [xzTail6, le32]
+  have s19 : (F.drop 4).take 6 = xzTail6 src := by
+    rw [← hF, List.drop_left' (le32_length _)]
+    exact List.take_left' (by simp [xzTail6])
+  have s20 : F.take 12 = le32 (crc32 (xzTail6 src)) ++ (xzTail6 src ++ [89, 90]) := by
+    rw [← hF]
+    simp [xzTail6, le32]
+  have s21 : F.drop 12 = tail := by
+    rw [← hF]
+    simp [xzTail6, le32]
+  have hz : (#[] : Array UInt8).size = 0 := rfl
+  have hb01 : ¬ ((0 : UInt8) ≠ 0 ∨ (1 : UInt8) ≠ 1) := by decide
+  have s22 : ¬ (le32 (crc32 (xzTail6 src)) ++ (xzTail6 src ++ ([89, 90] : List UInt8)) ≠
+      le32 (crc32 (xzTail6 src)) ++
+        ([((xzIdxP src).length >>> 2).toUInt8, ((xzIdxP src).length >>> 2 >>> 8).toUInt8,
+          ((xzIdxP src).length >>> 2 >>> 16).toUInt8, ((xzIdxP src).length >>> 2 >>> 24).toUInt8, 0, 1, 89, 90] : List UInt8)) := by
+    simp [xzTail6]
+  subst s9
+  unfold decodeXz
+  simp only [s1, s2, s3, s4, s5, s6, s7, s8, hz, hb01, s10, s11, s12, s13, s14, s15, s16, s17, s18, s19, s20,
+    s21, s22, if_false, Nat.sub_zero, ne_eq, not_true_eq_false, not_false_eq_true, or_self, if_true]
+
+/-! ## size of the chunk sequence (so that one hypothesis on `src.length` suffices) -/
+
+theorem chunkBytes_length_le (c : List UInt8) : (chunkBytes c).length ≤ c.length + 3 := by
+  unfold chunkBytes encodeXzChunk
+  dsimp only
+  split
+  · simp [pushList_toList]
+  · rename_i h
+    simp only [Array.toList_append, Array.toList_push, List.length_append, Array.length_toList,
+      Array.toList_empty, List.length_nil, List.length_cons]
+    omega
+
+theorem chunksBytes_length_le : ∀ (n : Nat) (rem : List UInt8), rem.length = n →
+    (chunksBytes rem).length ≤ 4 * rem.length := by
+  intro n
+  induction n using Nat.strongRecOn with
+  | _ n ih =>
+    intro rem hn
+    by_cases h0 : rem.length = 0
+    · have : rem = [] := List.eq_nil_of_length_eq_zero h0
+      subst this
+      rw [chunksBytes_nil]; simp
+    · by_cases hbig : rem.length > 0x10000
+      · rw [chunksBytes_big rem hbig, List.length_append]
+        have h1 := chunkBytes_length_le (rem.take 0x10000)
+        have hd : (rem.drop 0x10000).length < n := by simp only [List.length_drop]; omega
+        have h2 := ih _ hd _ rfl
+        simp only [List.length_take, List.length_drop] at h1 h2 ⊢
+        omega
+      · rw [chunksBytes_small rem h0 hbig]
+        have h1 := chunkBytes_length_le rem
+        omega
+
+theorem xzUnpadded_lt (src : List UInt8) (h : src.length < 2 ^ 60) : xzUnpadded src < 2 ^ 63 := by
+  unfold xzUnpadded
+  have := chunksBytes_length_le _ src rfl
+  omega
 
 end WuffsVerif.Lzma
